@@ -21,8 +21,13 @@ def registry():
     global _REG
     if _REG is None:
         _REG = Registry()
-        from . import classes, system_py
-        for m in (classes, system_py):
+        from . import classes, system_py, model_py
+        for m in (classes, system_py, model_py):
             m.register(_REG, PROPERTIES)
         system_py.register_executor(_REG, PROPERTIES)
+        system_py.register_executor2(_REG, PROPERTIES)
+        model_py.register2(_REG, PROPERTIES)
+        model_py.register3(_REG, PROPERTIES)
+        from . import properties
+        properties.register(_REG, PROPERTIES)
     return _REG
